@@ -514,6 +514,12 @@ static inline std::vector<std::pair<std::string, std::function<A::Payload()>>> a
         {"type 0x0100 (raw type 0), 5 other bytes", [] { Bytes d = pat(5, 7); return PL(A::PayloadType(0x0100u), d.data(), 5); }},
         {"type 0x0001 (message type 0), 5 bytes", [] { Bytes d = pat(5, 6); return PL(A::PayloadType(0x0001u), d.data(), 5); }},
         {"type 0x0001 (message type 0), 5 other bytes", [] { Bytes d = pat(5, 7); return PL(A::PayloadType(0x0001u), d.data(), 5); }},
+        // payloads that REPORT something (bus errors, an error position): what a payload says is its own business - the packet that is
+        // given it keeps its header fields, flags included, and forgets all about it when it is given another payload
+        {"CanPayload 8 with formErr and an error position", [] { A::CanPayload c; Bytes d = pat(8, 2); c.setData(d.data(), 8); c.setFlag(A::CanPayloadBase::Flags::formErr, true); c.setErrorPosition(5); return PL(c); }},
+        {"CanFdPayload 12 with crcErr", [] { A::CanFdPayload c; Bytes d = pat(12, 2); c.setData(d.data(), 12); c.setFlag(A::CanPayloadBase::Flags::crcErr, true); return PL(c); }},
+        {"LinPayload 8 with checksumErr", [] { A::LinPayload c; Bytes d = pat(8, 3); c.setData(d.data(), 8); c.setFlag(A::LinPayload::Flags::checksumErr, true); return PL(c); }},
+        {"EthernetPayload 100 with fcsErr", [] { A::EthernetPayload c; Bytes d = pat(100, 4); c.setData(d.data(), 100); c.setFlag(A::EthernetPayload::Flags::fcsErr, true); return PL(c); }},
         {"CanPayload 8 whose type was reset to invalid afterwards", [] { A::CanPayload c; Bytes d = pat(8, 2); c.setData(d.data(), 8); PL p(c); p.setType(A::PayloadType(A::PayloadType::invalid)); return p; }},
         {"CanPayload 8, one byte differs, type reset to invalid", [] { A::CanPayload c; Bytes d = pat(8, 2); d[3] ^= 1; c.setData(d.data(), 8); PL p(c); p.setType(A::PayloadType(A::PayloadType::invalid)); return p; }},
     };
